@@ -4,6 +4,7 @@ R12.1 seek-before-read typestate on the shared file handle of SystemGro
 R12.2 the cursor fields of GroFile move together (seek_atom / readline)
 R12.3 offset arithmetic and run-length encoding/decoding agree
 R12.4 the residue-boundary predicate is injective in (residue number, residue name)
+R12.5 integer (incl. -1), negative and slice indexing go through the same offset generator
 """
 from __future__ import annotations
 
@@ -65,6 +66,8 @@ def run(ctx: Ctx):
     r12_2(ctx)
     r12_3(ctx)
     r12_4(ctx)
+    from .c11 import accessor_branches
+    accessor_branches(ctx, "R12.5", ("SystemGro.__getitem__",))
 
 
 def r12_1(ctx: Ctx):
@@ -269,10 +272,25 @@ def r12_3(ctx: Ctx):
     oke = False
     if app and inc and tests:
         pair = app[0].value.elts
-        t = norm(tests[0].test)
+        t = norm(tests[0].test).replace(" ", "")
+        want_t = ("not %s or %s[-2] != %s" % (lst, lst, norm(pair[0]))).replace(" ", "")
         oke = len(pair) == 2 and const_int(pair[1]) == 1 and const_int(inc[0].target.slice) == -1 \
-            and const_int(inc[0].value) == 1 and ("%s[-2] != %s" % (lst, norm(pair[0]))) in t \
-            and ("not %s" % lst) in t and app[0] in tests[0].body and inc[0] in tests[0].orelse
+            and const_int(inc[0].value) == 1 and t == want_t \
+            and app[0] in tests[0].body and inc[0] in tests[0].orelse \
+            and isinstance(app[0].op, ast.Add) and isinstance(inc[0].op, ast.Add)
+        # the kind index of a residue: new kinds are appended and indexed by position, known kinds looked up
+        kinds = [n_ for n_ in walk_no_nested(enc.node) if isinstance(n_, ast.If) and "different_molecules" in norm(n_.test)]
+        if kinds:
+            k0 = kinds[0]
+            okk = norm(k0.test).replace(" ", "") == "residuenotinself.different_molecules" \
+                and any("different_molecules.append(residue)" in norm(x) for x in k0.body) \
+                and any(isinstance(x, ast.Assign) and norm(x.value).replace(" ", "") == "len(self.different_molecules)-1" for x in k0.body)
+            oke = oke and okk
+    # exactly one place starts a pair and exactly one extends the last count
+    all_inc = [s_ for s_ in walk_no_nested(enc.node) if isinstance(s_, ast.AugAssign) and (
+        attr_chain(s_.target) == lst or (isinstance(s_.target, ast.Subscript) and attr_chain(s_.target.value) == lst))]
+    if len(all_inc) != 2:
+        oke = False
     ctx.ob("R12.3", enc, tests[0] if tests else "run-length encoder", oke,
            "a new (kind, 1) pair is started when the list is empty or the last kind differs, otherwise the last "
            "count is incremented", node=tests[0] if tests else enc.node)
@@ -382,8 +400,15 @@ def r12_4(ctx: Ctx):
            "a new residue starts exactly where residue number or residue name changes: the comparison must "
            "distinguish any two different (number, name) pairs" + ("" if verdict else " -- " + why), node=t,
            compared=sorted(attrs_compared))
-    # the remembered key is refreshed from the first atom of the new residue
+    # polarity: atoms with an unchanged key extend the current residue; a changed key closes it
+    body_same = t.body if _is_same_test(test) else t.orelse
     body_new = t.orelse if _is_same_test(test) else t.body
+    neg = isinstance(test, ast.UnaryOp) and isinstance(test.op, ast.Not)
+    pol_ok = (not neg) and any(isinstance(x, ast.Expr) and "current_residue.append" in norm(x) for x in body_same) \
+        and any(isinstance(x, ast.Expr) and "_add_residue_init" in norm(x) for x in body_new)
+    ctx.ob("R12.4", f, "branches of the boundary test", pol_ok,
+           "an atom whose (number, name) equals the current residue's is appended to it; otherwise the current residue "
+           "is closed and a new one starts with this atom", node=t)
     refreshed = any(isinstance(s, ast.Assign) for s in body_new)
     ctx.ob("R12.4", f, "key refresh in the new-residue branch", refreshed,
            "the key of the current residue is updated when a new residue starts", node=t)
